@@ -77,33 +77,37 @@ def check(ctx):
     fs = P.func(qs)
     its = interp(ctx)
     ctx.touch(qs)
-    ps = only(its.run_function(qs), qs, ctx, "C08-b")
-    evs = [e for e in ps.events if e.kind == "ext_call" and e.data["callee"] in QUADRATURE]
-    if len(evs) > 1:
-        raise AnalysisError(f"{qs}: expected one quadrature call")
-    if not evs:
-        from .common import handrolled_trapezoid
+    from .common import each
 
-        st, yv, xv = handrolled_trapezoid(its, its.to_nf(ps.value), {"pressure"})
-        if st == "none":
-            raise AnalysisError(f"{qs}: neither a library quadrature nor a recognisable hand-written trapezoid rule")
-        ctx.check(st == "ok", "C08-b", qs + ":hand-written trapezoid", fs.where(), "a hand-written quadrature is the cumulative trapezoid rule sum 1/2 (y[j+1] + y[j]) (x[j+1] - x[j]) over the pressure column with signed differences", signature="hand-written quadrature", reason=yv if st != "ok" else "")
-        if st == "ok":
-            ctx.identity("C08-a", qs + ":integrand", fs.where(), "integrated quantity == 2 * pressure / (viscosity * z_factor) over the function's own columns", yv, nf.div(nf.mul(two, nf.sym("pressure")), nf.mul(nf.sym("viscosity"), nf.sym("z_factor"))))
-        evs = None
-    where = f"{fs.file}:{evs[0].line}" if evs else fs.where()
-    y = check_quadrature(ctx, "C08-b", evs[0], its, {"pressure"}, qs + ":cumulative_trapezoid", where) if evs else None
-    k = _factor(its, ps.value, evs[0]) if evs else None
-    if evs is None:
-        pass
-    elif y is not None and k is not None:
-        ctx.identity(
-            "C08-a", qs + ":integrand", where,
-            "integrated quantity == 2 * pressure / (viscosity * z_factor) over the function's own columns",
-            nf.mul(k, y), nf.div(nf.mul(two, nf.sym("pressure")), nf.mul(nf.sym("viscosity"), nf.sym("z_factor"))),
-        )
-    else:
-        ctx.bad("C08-a", qs + ":integrand", where, "the function returns a constant multiple of the cumulative integral", signature="return value")
+    # every distinct result (a fast path written out by hand next to the library call, say) has to be the integral
+    for vtag, ps in each(its.run_function(qs), qs):
+        evs = [e for e in ps.events if e.kind == "ext_call" and e.data["callee"] in QUADRATURE]
+        if len(evs) > 1:
+            raise AnalysisError(f"{qs}: expected one quadrature call")
+        if not evs:
+            from .common import handrolled_trapezoid
+
+            st, yv, xv = handrolled_trapezoid(its, its.to_nf(ps.value), {"pressure"})
+            if st == "none":
+                raise AnalysisError(f"{qs}: neither a library quadrature nor a recognisable hand-written trapezoid rule")
+            ctx.check(st == "ok", "C08-b", qs + ":hand-written trapezoid" + vtag, fs.where(), "a hand-written quadrature is the cumulative trapezoid rule sum 1/2 (y[j+1] + y[j]) (x[j+1] - x[j]) over the pressure column with signed differences", signature="hand-written quadrature", reason=yv if st != "ok" else "")
+            if st == "ok":
+                ctx.identity("C08-a", qs + ":integrand" + vtag, fs.where(), "integrated quantity == 2 * pressure / (viscosity * z_factor) over the function's own columns", yv, nf.div(nf.mul(two, nf.sym("pressure")), nf.mul(nf.sym("viscosity"), nf.sym("z_factor"))))
+            evs = None
+        where = f"{fs.file}:{evs[0].line}" if evs else fs.where()
+        y = check_quadrature(ctx, "C08-b", evs[0], its, {"pressure"}, qs + ":cumulative_trapezoid" + vtag, where) if evs else None
+        k = _factor(its, ps.value, evs[0]) if evs else None
+        if evs is None:
+            pass
+        elif y is not None and k is not None:
+            ctx.identity(
+                "C08-a", qs + ":integrand" + vtag, where,
+                "integrated quantity == 2 * pressure / (viscosity * z_factor) over the function's own columns",
+                nf.mul(k, y), nf.div(nf.mul(two, nf.sym("pressure")), nf.mul(nf.sym("viscosity"), nf.sym("z_factor"))),
+            )
+        else:
+            ctx.bad("C08-a", qs + ":integrand" + vtag, where, "the function returns a constant multiple of the cumulative integral", signature="return value")
+
 
     # ---- route 3: table builder
     qb = FLUID + "build_pvt_gas"
